@@ -130,46 +130,49 @@ Variable dz : bytes -> bytes.
 Notation dloop := (dechunk_loop dz).
 
 (* ================= one iteration of dechunk ================= *)
-Lemma dloop_stuck_line f t acc : nolf t -> dloop (S f) t acc = DOk acc t.
+Lemma dloop_stuck_line sl f t acc : nolf t -> dloop sl (S f) t acc = DOk acc t.
 Proof.
   intro H. cbn [dechunk_loop]. rewrite (upto_lf_nolf _ H), (ends_crlf_nolf _ H). reflexivity.
 Qed.
 
-Lemma dloop_zero f z u acc : size_line z 0%N -> dloop (S f) (z ++ CRLF ++ u) acc = DOk acc [].
+Lemma dloop_zero sl f z u acc : size_line z 0%N -> dloop sl (S f) (z ++ CRLF ++ u) acc = DOk acc [].
 Proof.
   intro H. apply size_line_facts in H. destruct H as (Hn & Hs & Hi).
   cbn [dechunk_loop]. rewrite (upto_lf_line _ _ Hn), ends_crlf_line, Hs, Hi. reflexivity.
 Qed.
 
-Lemma dloop_chunk f h b rest acc :
-  size_line h (N.of_nat (length b)) -> b <> [] -> (N.of_nat (length b) < 2^62)%N ->
-  dloop (S f) (h ++ CRLF ++ b ++ CRLF ++ rest) acc = dloop f rest (acc ++ dz b).
+(* a complete chunk that fits into the segment: the cap of the read does not bite *)
+Lemma dloop_chunk sl f h b rest acc :
+  size_line h (N.of_nat (length b)) -> b <> [] -> length b <= sl ->
+  dloop sl (S f) (h ++ CRLF ++ b ++ CRLF ++ rest) acc = dloop sl f rest (acc ++ dz b).
 Proof.
-  intros H Hb Hlt. apply size_line_facts in H. destruct H as (Hn & Hs & Hi).
+  intros H Hb Hle. apply size_line_facts in H. destruct H as (Hn & Hs & Hi).
   cbn [dechunk_loop]. rewrite (upto_lf_line _ _ Hn), ends_crlf_line, Hs, Hi. cbn [negb].
   destruct (N.of_nat (length b)) as [|p] eqn:En.
   { destruct b; [congruence|simpl in En; lia]. }
   rewrite <- En. cbv beta iota.
-  assert (Hle : (2^62 <=? N.of_nat (length b))%N = false) by (apply N.leb_gt; rewrite En; exact Hlt).
-  rewrite Hle, Nat2N.id, firstn_len_app, skipn_len_app.
+  assert (Hmin : N.min (N.of_nat (length b)) (N.of_nat sl) = N.of_nat (length b)) by (apply N.min_l; lia).
+  rewrite Hmin, Nat2N.id, firstn_len_app, skipn_len_app.
   unfold CRLF at 1. cbn [app upto_lf]. change (Byte.eqb x0d x0a) with false. change (Byte.eqb x0a x0a) with true.
-  cbv beta iota. rewrite Nat.eqb_refl. reflexivity.
+  cbv beta iota. rewrite N.eqb_refl. reflexivity.
 Qed.
 
 (* the input stops inside (or right after) the data of a chunk, or inside its terminating CRLF *)
-Lemma dloop_stuck_body f h n b' acc :
-  size_line h n -> n <> 0%N -> (n < 2^62)%N ->
+Lemma dloop_stuck_body sl f h n b' acc :
+  size_line h n -> n <> 0%N -> length b' <= sl ->
   (skipn (N.to_nat n) b' = [] \/ skipn (N.to_nat n) b' = [x0d]) ->
-  dloop (S f) (h ++ CRLF ++ b') acc = DOk acc (h ++ CRLF ++ b').
+  dloop sl (S f) (h ++ CRLF ++ b') acc = DOk acc (h ++ CRLF ++ b').
 Proof.
-  intros H Hn0 Hlt Hsk. apply size_line_facts in H. destruct H as (Hn & Hs & Hi).
+  intros H Hn0 Hle Hsk. apply size_line_facts in H. destruct H as (Hn & Hs & Hi).
   cbn [dechunk_loop]. rewrite (upto_lf_line _ _ Hn), ends_crlf_line, Hs, Hi. cbn [negb].
   destruct n as [|p]; [congruence|]. cbv beta iota.
-  assert (Hle : (2^62 <=? N.pos p)%N = false) by (now apply N.leb_gt).
-  rewrite Hle.
-  assert (Hterm : upto_lf (skipn (N.to_nat (N.pos p)) b') = (skipn (N.to_nat (N.pos p)) b', []) /\
-                  ends_lf (skipn (N.to_nat (N.pos p)) b') = false).
-  { destruct Hsk as [-> | ->]; split; reflexivity. }
+  set (k := N.to_nat (N.min (N.pos p) (N.of_nat sl))).
+  assert (Hsk' : skipn k b' = [] \/ skipn k b' = [x0d]).
+  { destruct (N.le_gt_cases (N.pos p) (N.of_nat sl)) as [L|G].
+    - replace k with (N.to_nat (N.pos p)); [exact Hsk|]. unfold k. now rewrite N.min_l.
+    - left. apply skipn_all2. unfold k. rewrite N.min_r by lia. rewrite Nat2N.id. exact Hle. }
+  assert (Hterm : upto_lf (skipn k b') = (skipn k b', []) /\ ends_lf (skipn k b') = false).
+  { destruct Hsk' as [-> | ->]; split; reflexivity. }
   destruct Hterm as (Hu & He). rewrite Hu, He. cbn [negb]. rewrite orb_true_r.
   rewrite firstn_skipn, <- app_assoc. reflexivity.
 Qed.
@@ -184,14 +187,17 @@ Definition stuck (t:bytes) (todo:list chunk) (last:option bytes) : Prop :=
   | [] => match last with Some z => sprefix t (z ++ CRLF) | None => t = [] end
   end.
 
-Lemma dloop_stuck_chunk f c t acc : wf_chunk c -> sprefix t (render_chunk c) -> dloop (S f) t acc = DOk acc t.
+Lemma dloop_stuck_chunk sl f c t acc : wf_chunk c -> sprefix t (render_chunk c) -> length t <= sl ->
+  dloop sl (S f) t acc = DOk acc t.
 Proof.
-  intros (Hb & Hlt & Hsz) (v & Hv & E). unfold render_chunk in E.
+  intros (Hb & Hsz) (v & Hv & E) Hle. unfold render_chunk in E.
   pose proof (size_line_facts _ _ Hsz) as (Hn & _ & _).
   rewrite app_assoc in E. destruct (split_app _ _ _ _ E) as [(v1 & Hv1 & E1 & _)|(b' & -> & E2)].
   - apply dloop_stuck_line. eapply sprefix_line_nolf; eauto.
-  - rewrite <- app_assoc. apply dloop_stuck_body with (n := N.of_nat (length (body c))); auto.
+  - rewrite <- app_assoc. rewrite !app_length in Hle.
+    apply dloop_stuck_body with (n := N.of_nat (length (body c))); auto.
     + destruct (body c); [congruence|simpl; lia].
+    + lia.
     + rewrite Nat2N.id. destruct (split_app _ _ _ _ E2) as [(v2 & Hv2 & E3 & _)|(w & -> & E3)].
       * left. apply skipn_all2. rewrite <- E3, app_length. lia.
       * rewrite skipn_len_app. unfold CRLF in E3.
@@ -225,14 +231,14 @@ Proof. unfold decoded. cbn [map concat]. apply app_nil_r. Qed.
 (* dechunk on any prefix [x] of a well-formed chunked stream: all complete chunks are decoded, the
    incomplete tail is kept; or the last-chunk was seen and the rest of the segment is dropped *)
 Lemma dloop_prefix last : wf_last last -> forall todo, Forall wf_chunk todo ->
-  forall fuel x y acc, x ++ y = render todo last -> length x < fuel ->
+  forall sl fuel x y acc, x ++ y = render todo last -> length x < fuel -> length x <= sl ->
   (exists done todo' t, todo = done ++ todo' /\ x = render_chunks done ++ t /\ stuck t todo' last /\
-                        dloop fuel x acc = DOk (acc ++ decoded dz done) t)
+                        dloop sl fuel x acc = DOk (acc ++ decoded dz done) t)
   \/
   (exists z u, last = Some z /\ x = render_chunks todo ++ z ++ CRLF ++ u /\ u ++ y = CRLF /\
-               dloop fuel x acc = DOk (acc ++ decoded dz todo) []).
+               dloop sl fuel x acc = DOk (acc ++ decoded dz todo) []).
 Proof.
-  intros Hl todo. induction todo as [|c todo IH]; intros Hwf fuel x y acc E Hf.
+  intros Hl todo. induction todo as [|c todo IH]; intros Hwf sl fuel x y acc E Hf Hsl.
   - destruct fuel as [|f]; [lia|]. rewrite render_nil in E.
     destruct last as [z|]; unfold render_last in E.
     + rewrite app_assoc in E. destruct (split_app _ _ _ _ E) as [(v & Hv & E1 & E2)|(u & -> & E2)].
@@ -250,13 +256,15 @@ Proof.
     destruct (split_app _ _ _ _ E) as [(v & Hv & E1 & E2)|(x' & -> & E2)].
     + left. exists [], (c :: todo), x. destruct fuel as [|f]; [lia|].
       split; [reflexivity|]. split; [reflexivity|]. split; [exists v; auto|].
-      rewrite acc_decoded_nil. eapply dloop_stuck_chunk; eauto. exists v; auto.
+      rewrite acc_decoded_nil. apply dloop_stuck_chunk with (c := c); auto. exists v; auto.
     + destruct fuel as [|f]; [lia|].
-      assert (Hstep : dloop (S f) (render_chunk c ++ x') acc = dloop f x' (acc ++ dz (body c))).
-      { destruct Hc as (Hb & Hlt & Hsz). unfold render_chunk. rewrite <- !app_assoc. now apply dloop_chunk. }
+      assert (Hstep : dloop sl (S f) (render_chunk c ++ x') acc = dloop sl f x' (acc ++ dz (body c))).
+      { destruct Hc as (Hb & Hsz). unfold render_chunk. rewrite <- !app_assoc. apply dloop_chunk; auto.
+        unfold render_chunk in Hsl. rewrite !app_length in Hsl. lia. }
       assert (Hf' : length x' < f).
       { rewrite app_length in Hf. pose proof (render_chunk_len c). lia. }
-      destruct (IH Hwf' f x' y (acc ++ dz (body c)) E2 Hf')
+      assert (Hsl' : length x' <= sl) by (rewrite app_length in Hsl; lia).
+      destruct (IH Hwf' sl f x' y (acc ++ dz (body c)) E2 Hf' Hsl')
         as [(done & todo' & t & Et & Ex & Hst & Hd)|(z & u & El & Ex & Eu & Hd)].
       * left. exists (c :: done), todo', t. split; [|split; [|split; [exact Hst|]]].
         -- rewrite Et. reflexivity.
@@ -334,8 +342,8 @@ Proof.
     { rewrite Eg, Ec in Etot. unfold render in Etot. rewrite render_chunks_app in Etot.
       rewrite <- !app_assoc in Etot. apply app_inv_head in Etot. rewrite <- app_assoc. exact Etot. }
     unfold dechunk.
-    destruct (dloop_prefix last Hl todo Ewf (S (length (partial s ++ d))) (partial s ++ d) rest [] Exy
-                (Nat.lt_succ_diag_r _))
+    destruct (dloop_prefix last Hl todo Ewf (length (partial s ++ d)) (S (length (partial s ++ d)))
+                (partial s ++ d) rest [] Exy (Nat.lt_succ_diag_r _) (Nat.le_refl _))
       as [(done' & todo' & t & Et & Ex & Hst' & Hdl)|(z & u & El & Ex & Eu & Hdl)].
     + rewrite Hdl. eexists. split; [reflexivity|]. simpl. repeat split; auto.
       apply IMid with (done := done ++ done') (todo := todo'); simpl.
